@@ -78,6 +78,9 @@ class RowCollector:
                 else:
                     self._append_columns(missing)
             values = [values[name] for name in self._columns]
+        if len(values)<len(self._columns):
+            # refuse before any column is touched, otherwise the columns end up with different lengths
+            raise Exception('Row has less values than there are columns:', len(values), len(self._columns))
         if self._array:
             for n, name in enumerate(self._columns):
                 data = getattr(self,name)
